@@ -40,7 +40,7 @@ def c06_a(ctx: Ctx):
     out = []
     ap, rk = ctx.fn(FP + ":_add_prefix"), ctx.fn(FP + ":_root_keys")
     fr = ctx.fn(IDX + ":_SearchIndexer._find_result")
-    s_ap, s_rk = _logical_in(ap, "key"), _logical_in(rk, "key")
+    s_ap, s_rk = _logical_in(ap, None), _logical_in(rk, None)
     s_fr = set()
     for n in body_nodes(fr):
         if isinstance(n, ast.Call) and isinstance(n.func, ast.Attribute) and n.func.attr in ("pop", "get") and n.args \
@@ -79,14 +79,14 @@ def c06_b(ctx: Ctx):
         return [ctx.inc(R, None, None, "_INDEX_OPERATORS does not fold", construct="ops")]
     ops = set(ops)
     fe = ctx.fn(IDX + ":_SearchIndexer._find_expression")
-    exists_handled = "$exists" in common.str_consts_compared(body_nodes(fe), "op")
+    exists_handled = "$exists" in common.str_consts_compared(body_nodes(fe), None)
     for o in sorted(DOCUMENTED):
         k = f"grammar|{o}"
         if o in ops or (o == "$exists" and exists_handled):
             out.append(ctx.ok(R, None, None, f"documented operator {o} is dispatched", construct=k))
         else:
             out.append(ctx.viol(R, fe, fe.node, f"documented operator {o} is neither in _INDEX_OPERATORS nor handled by _find_expression: filters using it raise KeyError", construct=k))
-    own = common.str_consts_compared(body_nodes(fe), "op") & ops
+    own = common.str_consts_compared(body_nodes(fe), None) & ops
     if own:
         out.append(ctx.viol(R, fe, fe.node, f"_find_expression answers {sorted(own)} itself instead of dispatching it to _find_with_index_operator: that evaluator is the only place where the "
                             "operator's predicate is applied to every key of the typed index (look-ups by candidate miss equal values of the other numeric type: 1 vs 1.0)",
@@ -95,13 +95,13 @@ def c06_b(ctx: Ctx):
         out.append(ctx.ok(R, fe, fe.node, "every index operator is dispatched to _find_with_index_operator", construct=fe.qual + "|own-operators"))
     disp = [c for c in body_nodes(fe) if isinstance(c, ast.Call) and (IDX + ":_find_with_index_operator") in common.targets_of(ctx, fe, c)]
     for c in disp:
-        a = [canon(x) for x in c.args]
-        if a == ["index", "op", "value"]:
-            out.append(ctx.ok(R, fe, c, "dispatch passes (index, op, value) unchanged"))
+        a = [canon(common.inline_at(ctx, fe, x, c)).replace(" ", "") for x in c.args]
+        if len(a) == 3 and a[0].startswith("self.build_index(") and a[1].endswith(".split('.')[-1]") and a[2] == fe.params[-1]:
+            out.append(ctx.ok(R, fe, c, "dispatch passes (index of the key, operator component, value) unchanged"))
         else:
             out.append(ctx.inc(R, fe, c, f"dispatch arguments {a}"))
     f = ctx.fn(IDX + ":_find_with_index_operator")
-    branches = common.str_consts_compared(body_nodes(f), "op")
+    branches = common.str_consts_compared(body_nodes(f), f.params[1] if len(f.params) > 1 else None)
     rename = {}
     for n in body_nodes(f):
         if isinstance(n, ast.Call) and isinstance(n.func, ast.Name) and n.func.id == "getattr" and len(n.args) >= 2:
@@ -122,7 +122,8 @@ def c06_b(ctx: Ctx):
                 out.append(ctx.viol(R, f, f.node, f"{o} has no branch and operator.{name} does not exist: AttributeError for filters using {o}", construct=k))
     # every return is preceded by the scan over the index keys
     cfg = ctx.cfg(f)
-    scans = {n.id for n in cfg.stmt_nodes() if isinstance(n.ast, ast.For) and canon(n.ast.iter) in ("index", "index.keys()", "list(index)", "index.items()")}
+    ix = f.params[0]
+    scans = {n.id for n in cfg.stmt_nodes() if isinstance(n.ast, ast.For) and canon(n.ast.iter) in (ix, ix + ".keys()", f"list({ix})", ix + ".items()")}
     if not scans:
         out.append(ctx.inc(R, f, f.node, "no loop over the index keys"))
     for n in cfg.stmt_nodes():
@@ -208,9 +209,24 @@ def c06_d(ctx: Ctx):
             out.append(ctx.ok(R, f, a, "the id filed is the id of the document being visited"))
         else:
             out.append(ctx.viol(R, f, a, f"index receives {stmt_key(a.args[0], 30) if a.args else '?'}, not the id of the visited document"))
+    inner_targets = {x for l2 in ast.walk(lp) if isinstance(l2, ast.For) and l2 is not lp for x in common.target_names(l2.target)}
+    conv = [c for c in ast.walk(lp) if isinstance(c, ast.Call) and isinstance(c.func, ast.Name) and c.func.id == "int" and c.args and canon(c.args[0]) in inner_targets]
+    if conv:
+        out.append(ctx.viol(R, f, conv[0], "key components are converted to list positions (int(n)): a digit-only key such as 'coeffs.0' now also selects element 0 of jobs where 'coeffs' is a list, "
+                            "so those jobs contribute values to a key they do not have"))
+    hs = [h for h in ast.walk(lp) if isinstance(h, ast.ExceptHandler)]
+    for h in hs:
+        ts = sorted(common.handler_types(h))
+        if ts == ["KeyError", "TypeError"]:
+            out.append(ctx.ok(R, f, h, "a job lacking the (nested) key is skipped: KeyError / TypeError only"))
+        else:
+            out.append(ctx.inc(R, f, h, f"nested access handler catches {ts}"))
     # the value variable derives from doc within the same iteration
-    vdefs = [n for st in lp.body for n in ast.walk(st) if isinstance(n, ast.Assign) and any(isinstance(t, ast.Name) and t.id == "v" for t in n.targets)]
-    ok = vdefs and all(names_in(n.value) <= {docv, "v", "n"} for n in vdefs) and any(docv in names_in(n.value) for n in vdefs)
+    # the value variable: the local that the filed key derives from (index[...] subscript), assigned inside the loop
+    keyed = {x for a in adds for s in ast.walk(a.func.value) if isinstance(s, ast.Subscript) for x in names_in(s.slice)}
+    vdefs = [n for st in lp.body for n in ast.walk(st) if isinstance(n, ast.Assign) and any(isinstance(t, ast.Name) and t.id in keyed for t in n.targets)]
+    vnames = {t.id for n in vdefs for t in n.targets if isinstance(t, ast.Name)}
+    ok = vdefs and all(names_in(n.value) <= ({docv} | vnames | inner_targets) for n in vdefs) and any(docv in names_in(n.value) for n in vdefs)
     if ok:
         out.append(ctx.ok(R, f, vdefs[0], "the indexed value is re-derived from the visited document in every iteration"))
     else:
@@ -329,7 +345,8 @@ def c06_g(ctx: Ctx):
     okx = False
     for r in ex:
         v = r.value
-        if canon(v.test) == "value" and canon(v.body) == "match" and canon(v.orelse).replace(" ", "") == "set(self).difference(match)":
+        b = common.pmatch("M if V else set(self).difference(M)", v)
+        if b is not None and canon(b["V"]) == fe.params[-1] and isinstance(b["M"], ast.Name):
             okx = True
             out.append(ctx.ok(R, fe, r, "$exists: true -> ids having the key, false -> all ids minus those"))
     if not okx:
@@ -342,14 +359,22 @@ def c06_g(ctx: Ctx):
         for nm in [x for x in ast.walk(r.value) if isinstance(x, ast.Name)]:
             d = common.reaching_def(ctx, fe, nm.id, r)
             if d is not None:
-                t = canon(d).replace(" ", "")
-                if t.startswith("index.get(_float(value)"):
+                vp = fe.params[-1]
+                b = common.pmatch("I.get(A, D)", d) or common.pmatch("I.get(A)", d)
+                a = canon(b["A"]).replace(" ", "") if b else ""
+                if a == f"_float({vp})" or a == f"float({vp})":
                     parts.add("float")
-                if t.startswith("index.get(int(value)"):
+                if a == f"int({vp})":
                     parts.add("int")
+                elif a.startswith("int("):
+                    parts.add("int-from-float")
         facts = common.facts_at(ctx, fe, r, "n")
         guard = any(pol and "is_integer()" in t for (t, pol) in facts)
-        if parts == {"float", "int"} and guard:
+        if "int-from-float" in parts:
+            out.append(ctx.viol(R, fe, r, "the int key of the dual look-up is derived from the value converted to float: integers that are not representable as a double (|v| > 2**53) are looked "
+                                "up under a neighbouring integer, so {'seed': 2**53+1} misses its job (and finds the job of 2**53)"))
+            dual = True
+        elif parts == {"float", "int"} and guard:
             dual = True
             out.append(ctx.ok(R, fe, r, "integer-valued numbers are looked up under both their int and their float key, and the results united"))
         elif parts:
@@ -357,7 +382,8 @@ def c06_g(ctx: Ctx):
     if not dual and not any(r.status == "VIOLATION" for r in out):
         out.append(ctx.inc(R, fe, fe.node, "int/float dual look-up not recognised"))
     # plain equality: index.get(value, set())
-    plain = [n for n in body_nodes(fe) if isinstance(n, ast.Return) and n.value is not None and canon(n.value).replace(" ", "") == "index.get(value,set())"]
+    plain = [n for n in body_nodes(fe) if isinstance(n, ast.Return) and n.value is not None and (common.pmatch("I.get(V, set())", n.value) or {}).get("V") is not None
+             and canon(common.pmatch("I.get(V, set())", n.value)["V"]) == fe.params[-1]]
     if plain:
         out.append(ctx.ok(R, fe, plain[0], "other values are looked up under their own typed key"))
     # flattening
@@ -369,9 +395,11 @@ def c06_g(ctx: Ctx):
         k = kwarg(c, "key") or (c.args[1] if len(c.args) > 1 else None)
         kk = common.inline_at(ctx, fl, k, c) if k is not None else None
         t = canon(kk).replace(" ", "") if kk is not None else ""
-        if "'.'.join((key,k))" in t and "ifkeyisNone" in t:
+        kp = fl.params[1] if len(fl.params) > 1 else "key"
+        b = common.pmatch("K if P is None else '.'.join((P, K))", kk)
+        if b is not None and canon(b["P"]) == kp and isinstance(b["K"], ast.Name):
             out.append(ctx.ok(R, fl, c, "nested keys are accumulated as parent.child"))
-        elif k is None or "key" not in t:
+        elif k is None or kp not in names_in(kk):
             out.append(ctx.viol(R, fl, c, f"the recursion passes key={canon(k) if k is not None else 'nothing'}: the parent key is dropped, nested filter / state point keys collapse to their last component"))
         else:
             out.append(ctx.inc(R, fl, c, "key accumulation shape: " + t[:60]))
@@ -444,4 +472,62 @@ def c06_j(ctx: Ctx):
     return res
 
 
-RULES = [c06_a, c06_b, c06_c, c06_d, c06_e, c06_f, c06_g, c06_h, c06_i, c06_j]
+def _near_branch(f):
+    for n in ast.walk(f.node):
+        if isinstance(n, ast.If) and isinstance(n.test, ast.Compare) and len(n.test.ops) == 1 and isinstance(n.test.ops[0], ast.Eq) \
+                and isinstance(n.test.comparators[0], ast.Constant) and n.test.comparators[0].value == "$near" and canon(n.test.left) == "op":
+            return n
+    return None
+
+
+@rule("C06-k")
+def c06_k(ctx: Ctx):
+    """$near: for every documented argument shape (x, [x], [x, rel], [x, rel, abs]) the reference value and the two tolerances that reach math.isclose are the
+    given ones, the missing ones default to rel_tol=1e-9, abs_tol=0.0 (abstract evaluation of the branch per shape)."""
+    from .. import absint as A
+    R = "C06-k"
+    f = ctx.fn(IDX + ":_find_with_index_operator")
+    br = _near_branch(f)
+    if br is None:
+        return [ctx.inc(R, f, f.node, "no `op == '$near'` branch found")]
+    out = []
+    shapes = [("x", A.Sym("x"), (A.Sym("x"), A.Const(1e-9), A.Const(0.0)))]
+    for kind in ("list", "tuple"):
+        a = [A.Sym(f"a{i}") for i in range(3)]
+        shapes += [(f"{kind}[x]", A.Seq((a[0],), kind), (a[0], A.Const(1e-9), A.Const(0.0))),
+                   (f"{kind}[x, rel]", A.Seq((a[0], a[1]), kind), (a[0], a[1], A.Const(0.0))),
+                   (f"{kind}[x, rel, abs]", A.Seq((a[0], a[1], a[2]), kind), (a[0], a[1], a[2]))]
+    for label, shape, want in shapes:
+        k = f"{f.qual}|near-shape:{label}"
+        evl = A.Evaluator({"argument": shape, "op": A.Const("$near")})
+        try:
+            evl.run(br.body)
+            clo = evl.closures.get("op")
+            if clo is None:
+                raise A.GiveUp("the branch does not define the comparison closure `op`", br)
+            fn = clo[0]
+            calls = [c for c in ast.walk(fn) if isinstance(c, ast.Call) and (dotted(c.func) or "").split(".")[-1] == "isclose"]
+            if len(calls) != 1 or len(fn.args.args) != 2:
+                raise A.GiveUp("comparison closure is not a single isclose(value, argument, ...) call", fn)
+            c = calls[0]
+            inner = A.Evaluator(dict(evl.env))
+            inner.env[fn.args.args[0].arg] = A.Sym("value")
+            inner.env[fn.args.args[1].arg] = evl.env.get("argument", A.UNK)   # the evaluator loop calls op(value, argument)
+            pos = [inner.ev(x) for x in c.args]
+            kw = {kk.arg: inner.ev(kk.value) for kk in c.keywords}
+            if len(pos) != 2 or pos[0] != A.Sym("value"):
+                raise A.GiveUp("isclose is not called as isclose(value, reference, ...)", c)
+            got = (pos[1], kw.get("rel_tol", A.Const(1e-9)), kw.get("abs_tol", A.Const(0.0)))
+            if got == want:
+                out.append(ctx.ok(R, f, c, f"$near argument {label}: isclose(value, {got[0]}, rel_tol={got[1]}, abs_tol={got[2]})", construct=k))
+            else:
+                out.append(ctx.viol(R, f, c, f"$near argument {label}: isclose receives (reference={got[0]}, rel_tol={got[1]}, abs_tol={got[2]}) but the documented meaning is "
+                                    f"(reference={want[0]}, rel_tol={want[1]}, abs_tol={want[2]}): jobs are matched with a tolerance the filter did not ask for", construct=k))
+        except A.Raised as ex:
+            out.append(ctx.viol(R, f, br, f"$near argument {label}, a documented form, raises {ex.exc}", construct=k))
+        except A.GiveUp as g:
+            out.append(ctx.inc(R, f, g.node if g.node is not None and hasattr(g.node, "lineno") else br, f"$near branch not fully modelled for shape {label}: {g.why}", construct=k))
+    return out
+
+
+RULES = [c06_a, c06_b, c06_c, c06_d, c06_e, c06_f, c06_g, c06_h, c06_i, c06_j, c06_k]
